@@ -2,18 +2,18 @@
 # tools/ingest_seeds.sh c05 : copy /tmp/mutout-c05/N into seeded/C05-mN, confirm demo + suite in a scratch worktree
 # (no check run), remove the agent's worktree and output directory.
 set -u
-id=$1; ID=$(echo "$id" | tr a-z A-Z)
+id=$1; ID=$(echo "$id" | tr a-z A-Z); wave=${2:-}; tag=m; [ -n "$wave" ] && tag=n
 cd "$(dirname "$0")/.."
 for n in 1 2 3 4 5; do
-  src=/tmp/mutout-$id/$n
+  src=/tmp/mut${wave}out-$id/$n
   [ -f "$src/patch.diff" ] || continue
-  dst=seeded/$ID-m$n
+  dst=seeded/$ID-$tag$n
   mkdir -p "$dst"; cp "$src"/patch.diff "$src"/demo.py "$src"/meta.json "$dst"/ 2>/dev/null
   python3 tools/seedcheck.py "$dst" --suite --no-check --record | python3 -c "
 import json,sys
 r=json.load(sys.stdin)
 print(r['seed'].split('/')[-1], 'demo without/with:', r.get('demo_without_patch_rc'), r.get('demo_with_patch_rc'), '| suite:', (r.get('suite_tail') or '').splitlines()[-1:] )"
 done
-git -C /repo worktree remove --force /tmp/mut-$id 2>/dev/null
-rm -rf /tmp/mutout-$id
+git -C /repo worktree remove --force /tmp/mut${wave}-$id 2>/dev/null
+rm -rf /tmp/mut${wave}out-$id
 git -C /repo worktree prune
